@@ -707,3 +707,70 @@ Definition rg_at_head (th : rg_thread) (s : state) : bool :=
   | RgHs => match hpc s with HN => true | _ => false end
   | RgTl => negb (tlk s)
   end.
+
+(* ==== where "handshaking" is published =====================================================
+   wrapOutput stores kRelayHandshaking BEFORE it starts the worker and forwards the trigger to
+   the client ("store status before send to client"): whatever the client answers is read by an
+   input reader that already sees "handshaking".  The variant below carries the other
+   possibility: the store is the FIRST statement of the worker goroutine ([late] = true), i.e.
+   published asynchronously after the trigger has gone out.  The worker's publication step is
+   not a label of [step_fn]; it is the extra label [RpPublish], and the extra state bit says
+   that it is still pending.  Which of the two the CURRENT source has is regenerated from
+   relay.go ([rp_current]). *)
+Definition rp_current : bool := negb Consts.relay_handshaking_stored_by_reader.
+
+Definition rp_state := (bool * state)%type.
+Inductive rp_label := RpL (l : label) | RpPublish.
+
+Definition rp_is_hs (l : label) : bool :=
+  match l with
+  | LHsAct _ _ | LHsSendAct _ _ | LHsCfg _ _ | LHsSendCfg _ | LHsFail1 _ | LHsFail2 _
+  | LHsLock | LHsPopI | LHsSendI | LHsPopO | LHsSendO | LHsDone => true
+  | _ => false
+  end.
+
+Definition rp_keep (pend : bool) (o : option state) : option rp_state :=
+  match o with Some s => Some (pend, s) | None => None end.
+
+Definition rp_step (late ug tm : bool) (x : rp_label) (ps : rp_state) : option rp_state :=
+  let (pend, s) := ps in
+  match x with
+  | RpPublish => if pend then Some (false, set_st s StH) else None
+  | RpL l =>
+      if pend && rp_is_hs l then None else
+      match l with
+      | LOutStoreH =>
+          if late then match opc s with O5h c c' => Some (pend, set_opc s (O5g c c')) | _ => None end
+          else rp_keep pend (rg_step ug tm l s)
+      | LOutGo => rp_keep late (rg_step ug tm l s)
+      | _ => rp_keep pend (rg_step ug tm l s)
+      end
+  end.
+
+Fixpoint rp_run (late ug tm : bool) (ls : list rp_label) (ps : rp_state) : option rp_state :=
+  match ls with
+  | [] => Some ps
+  | l :: r => match rp_step late ug tm l ps with Some ps' => rp_run late ug tm r ps' | None => None end
+  end.
+
+(* the deterministic thread programs with the publication step *)
+Definition rp_next (th : rg_thread) (m : rg_mem) (ps : rp_state) : option (rp_label * rg_mem) :=
+  match th, fst ps with
+  | RgHs, true => Some (RpPublish, m)
+  | _, _ => match rg_next th m (snd ps) with Some (l, m') => Some (RpL l, m') | None => None end
+  end.
+
+Definition rp_move (late ug tm : bool) (th : rg_thread) (x : rg_mem * rp_state) : option (rp_label * (rg_mem * rp_state)) :=
+  match rp_next th (fst x) (snd x) with
+  | Some (l, m') => match rp_step late ug tm l (snd x) with Some ps' => Some (l, (m', ps')) | None => None end
+  | None => None
+  end.
+
+Definition rp_at_head (th : rg_thread) (ps : rp_state) : bool :=
+  match th with RgHs => negb (fst ps) && rg_at_head th (snd ps) | _ => rg_at_head th (snd ps) end.
+
+(* bytes the relay holds: parked, in a reader's hand, popped by the worker *)
+Definition rp_holds (s : state) : bool :=
+  negb (rg_is_nil (flat (ibr s) (ibq s)) && rg_is_nil (flat (obr s) (obq s))
+        && rg_is_nil (inflightI (ipc s)) && rg_is_nil (inflightO (opc s))
+        && rg_is_nil (hs_flI (hpc s)) && rg_is_nil (hs_flO (hpc s))).
